@@ -713,6 +713,17 @@ func GenBlocks(r *rand.Rand, p *Profile, nBlocks, nAcct, nVal int, period uint64
 				tw.NM, tw.SM, tw.MS, tw.ZGP = 0, 0, nil, false
 				bo.Ops = append(bo.Ops, tw)
 			}
+			if op.K == "fillorder" && r.Intn(4) == 0 {
+				// the owner cancels the very order that was just (partially) filled, in the same block
+				rm := GenOp(r, p, nAcct)
+				rm.K, rm.Raw, rm.Ref = "remorder", nil, 0
+				if len(rm.X) == 0 {
+					rm.X = make([]int64, 7)
+				}
+				rm.X[0], rm.X[3] = op.X[0], 0
+				rm.NM, rm.SM, rm.MS, rm.ZGP, rm.CH = 0, 0, nil, false, 0
+				bo.Ops = append(bo.Ops, rm)
+			}
 		}
 		if r.Float64() < p.PRestart {
 			bo.Restart = true
